@@ -148,6 +148,42 @@ def sweep_impl(rep, tier, seed):
                                     and back.header.tsamp == mask.header.tsamp and back.header.nbits == mask.header.nbits
                                 rep.check(ok, "mask file round trip changed arrays, threshold or header", function="core/rfi.py::RFIMask.from_file", input=inp)
                             os.remove(out_name)
+        # ---- an ascending band (fch1 is the LOWEST frequency, foff > 0): ranges that are not symmetric about the band centre
+        from common import unpack_spec, write_stream
+        nchans, N = 12, 40
+        data = rng.integers(0, 256, nchans * N, dtype=np.uint8).tobytes()
+        d = os.path.join(tmp, "asc")
+        os.makedirs(d, exist_ok=True)
+        names = write_stream(d, nchans, 8, data, [], tsamp=0.001, fch1=1000.0, foff=10.0)
+        X = unpack_spec(data, 8).reshape(N, nchans).astype(np.float64)
+        freqs = 1000.0 + 10.0 * np.arange(nchans)
+        for ri, ranges in enumerate([[(freqs[1], freqs[3])], [(freqs[0] - 1, freqs[0] + 1), (freqs[8], freqs[10] + 4.0)], [(freqs[nchans - 1], freqs[nchans - 1])]]):
+            for gulp in (7, 4 * N):
+                rep.case(("ascending", ri, gulp))
+                inp = dict(nbits=8, nchans=nchans, nsamples=N, foff=10.0, fch1=1000.0, freq_mask=ranges, gulp=gulp, seed=seed)
+                fil = FilReader(names)
+                out = os.path.join(tmp, f"clean_asc_{ri}_{gulp}.fil")
+                try:
+                    out_name, mask = fil.clean_rfi(method="mad", threshold=3, freq_mask=ranges, mask_value=3, outfile_name=out, gulp=gulp, quiet=True)
+                except Exception as exc:  # noqa: BLE001
+                    rep.fail("clean_rfi raised (ascending band)", function="base.py::Filterbank.clean_rfi", input=inp, observed=repr(exc))
+                    continue
+                user = np.zeros(nchans, dtype=bool)
+                for (lo, hi) in ranges:
+                    user |= (freqs >= lo) & (freqs <= hi)
+                rep.check(np.array_equal(mask.user_mask, user),
+                          "user mask is not the set of channels whose centre lies in a given closed range (ascending band)",
+                          function="core/rfi.py::RFIMask.apply_mask", input=inp, observed=np.nonzero(mask.user_mask)[0].tolist(),
+                          required=np.nonzero(user)[0].tolist())
+                rep.check(bool(np.all(mask.chan_mask[user])), "a user-masked channel is missing from the channel mask (ascending band)",
+                          function="core/rfi.py::RFIMask.apply_mask", input=inp)
+                o = read_out(out_name)
+                want = X.copy()
+                want[:, mask.chan_mask] = 3
+                rep.check(o["X"].shape == want.shape and np.array_equal(o["X"], want),
+                          "cleaned file: masked channels != mask value or unmasked samples changed (ascending band)",
+                          function="base.py::Filterbank.apply_channel_mask", input=inp)
+                os.remove(out_name)
     finally:
         shutil.rmtree(tmp, ignore_errors=True)
 
